@@ -499,7 +499,7 @@ class EvaluatorCall(Contract):
         return obls
     # the public entry point forwards the caller's fields untouched: routing (C02), the key (C12), totality over values (C15) and
     # the equivalence with the generated module text (C14) all go through it
-    props = ("C11", "C09", "C01", "C17", "C02", "C12", "C14", "C15")
+    props = ("C11", "C09", "C01", "C17", "C02", "C12", "C14", "C15", "C07", "C03", "C05", "C10", "C13")
 
     def shapes(self):
         def build(p):
